@@ -375,6 +375,8 @@ static CO_ERR usr_write(CO_OBJ *o, CO_NODE *n, void *b, uint32_t s)
     if (u->wrerr) { if (u->abortc) COObjTypeUserSDOAbort(o, n, u->abortc); return (CO_ERR)u->wrerr; }
     memcpy(u->val, b, s > 8 ? 8 : s);
     /* a "reset device" object: writing it makes the application reset the communication (abort code field C0DE0082h) or the node (..81h) */
+    /* ... abort code field C0DE0092h: only when a complete block (>= 512 bytes) arrives - the application has seen the header of a download */
+    if (u->abortc == 0xC0DE0092u && s >= 512u) { printf("cb usrreset 146\n"); CONmtReset(&n->Nmt, CO_RESET_COM); }
     if (u->abortc == 0xC0DE0082u || u->abortc == 0xC0DE0081u) { printf("cb usrreset %u\n", u->abortc & 0xFF); CONmtReset(&n->Nmt, (u->abortc & 1) ? CO_RESET_NODE : CO_RESET_COM); }
     return CO_ERR_NONE;
 }
